@@ -402,6 +402,27 @@ func c09Scenarios(tier string) []e1lib.Scenario {
 			}
 		}
 	}
+	// 1100 elements (more than 1024) over one and two workers, the default schedule only: whatever a worker does at a size
+	// threshold, every element is processed once
+	for _, par := range []int{1, 2} {
+		alt := 0
+		for x := 1; x < 62; x += 2 {
+			alt |= 1 << x
+		}
+		for _, st := range []string{"map", "filter", "partition", "foreach", "void"} {
+			c := forkh.Cfg{Stage: st, Par: par, Input: seq1(1100), InCap: 0, Mode: "pure", Stop: -1, Stop2: -1, ErrRd: "reader"}
+			if st == "map" {
+				c.Mode = "try"
+			}
+			if st == "filter" || st == "partition" {
+				c.Mask = alt
+			}
+			before := len(out)
+			add(c, 0)
+			out[before].Horizon = 60 * 1100
+			out[before].RealDone = nil
+		}
+	}
 	dev = false
 	return out
 }
